@@ -567,6 +567,8 @@ class Discharger:
                     cand = defs[-1] if len(defs) == 1 else None
                 if isinstance(cand, ast.Call) and isinstance(cand.func, ast.Attribute) and cand.func.attr == "split" and not cand.args and not cand.keywords:
                     return f"`{var}` is a word of {src(cand)}: str.split() without a separator yields no empty strings"
+                if isinstance(cand, ast.Call) and isinstance(cand.func, ast.Name) and cand.func.id == "filter" and len(cand.args) == 2 and isinstance(cand.args[0], ast.Constant) and cand.args[0].value is None:
+                    return f"`{var}` is an element of filter(None, ...): only truthy (non-empty) elements get through"
             p = getattr(p, "_parent", None)
         return None
 
